@@ -191,4 +191,19 @@ theorem annihilation_truncation_exact (q : ℕ) (hd : q + 1 ≤ d) (hdd : d ≤ 
     · rw [hψ _ (by omega), mul_zero]
     · rfl
 
+/-- the phase shifter `exp(iφ n)` at cutoff `n` -/
+noncomputable def phaseOp (n : ℕ) (φ : ℝ) : Matrix (Fin n) (Fin n) ℂ :=
+  Matrix.diagonal fun k => Complex.exp (Complex.I * φ * ((k : ℕ) : ℂ))
+
+/-- **the phase shifter is exact at every cutoff above the occupied levels** (cutoff `q + 1`) -/
+theorem phase_truncation_exact (q : ℕ) (hd : q + 1 ≤ d) (_hdd : d ≤ d') (φ : ℝ) (ψ : ℕ → ℂ)
+    (hψ : ∀ n, q < n → ψ n = 0) (r : Fin d') :
+    (phaseOp d' φ).mulVec (fun c => ψ c) r
+      = if h : (r : ℕ) < d then (phaseOp d φ).mulVec (fun c => ψ c) ⟨r, h⟩ else 0 := by
+  unfold phaseOp
+  rw [Matrix.mulVec_diagonal]
+  by_cases h : (r : ℕ) < d
+  · rw [dif_pos h, Matrix.mulVec_diagonal]
+  · rw [dif_neg h, hψ _ (by omega), mul_zero]
+
 end PW.Truncation
